@@ -45,6 +45,16 @@ def _sql(call):
 def sqlite_facts(src: str) -> dict:
     tree = ast.parse(src)
     fn = _method(tree, "SQLiteOrchestrator", "_atomic_status_transition")
+    # no write-excluding transaction anywhere in the method: whatever else it does, read-validate-write is not one step
+    sqls = []
+    for n in ast.walk(fn):
+        if isinstance(n, ast.Call) and isinstance(n.func, ast.Attribute) and n.func.attr == "execute" and n.args:
+            try:
+                sqls.append(_sql(n))
+            except TranslateError:
+                pass
+    if not any(q.startswith(("BEGIN IMMEDIATE", "BEGIN EXCLUSIVE")) for q in sqls):
+        return {"sqlite_transition_immediate": False}
     withs = [s for s in _body(fn) if isinstance(s, ast.With)]
     if len(withs) != 1:
         raise TranslateError("sqlite transition: expected exactly one `with` block")
